@@ -675,6 +675,18 @@ func explore(ctx *xplor.Ctx, c cfg, k, shard, nshards int) {
 					bad = true
 				}
 			}
+			// the second block of a slot only exists when the Byzantine owner equivocates there
+			if u[i].Kind == "delay" && u[i].V == 1 {
+				eq := false
+				for _, d := range cur {
+					if d.Kind == "byz" && d.S == u[i].S && strings.Contains(d.Ch, "+") {
+						eq = true
+					}
+				}
+				if !eq {
+					bad = true
+				}
+			}
 			if bad {
 				continue
 			}
